@@ -520,7 +520,11 @@ func main() {
 		// one relay with a large population (the only scenario of its size: one child, so the tier stays in budget)
 		pr := rng.Fork()
 		cases = append(cases, Case{Kind: "faults", Scen: &Scenario{Kind: "faults", BufferSize: 8,
-			Steps: []Step{{K: "population", Msgs: pr.Range(1010, 1100)}, {K: faultKinds[pr.Intn(7)]}}}})
+			Steps: []Step{{K: "population", Msgs: pr.Range(1010, 1100)}, {K: faultKinds[pr.Intn(7)]},
+				{K: "refused-handshakes", Msgs: pr.Range(10300, 10800)}}}})
+		// and one whose stalled reader outstays the relay's 10 s write deadline (runs next to everything else)
+		cases = append(cases, Case{Kind: "faults", Scen: &Scenario{Kind: "faults", BufferSize: 2,
+			Steps: []Step{{K: "stall-flood-hold", Msgs: pr.Range(18, 24), Size: 1 << 20}, {K: faultKinds[pr.Intn(7)]}}}})
 		for i := 0; i < nAPI; i++ {
 			cases = append(cases, Case{Kind: "api", Scen: genAPI(rng.Fork(), i)})
 		}
